@@ -67,6 +67,7 @@ META = {
 }
 
 K_ALG = 64.0
+JUDGE_IADD = False   # `X += a` (no LieTensor.__iadd__) is outside the property's observed entry points; see notes/C05.md
 NEARTOL = 1e-6
 
 
@@ -255,6 +256,7 @@ def gen_case(ctx: Ctx, ci: int):
             case["x"] = [r[0] for r in rows]
         tags = [r[1] for r in rows]
         case["tags"] = sorted(set(tags))[:4]
+        case["grad"] = rng.choice(GRAD_MODES)
         return case
     if op == "algadd":
         rows = [gen_alg_row(rng, name, eps) for _ in range(int(math.prod(sa)))]
@@ -269,6 +271,9 @@ def gen_case(ctx: Ctx, ci: int):
             case["a"] = [r[:A] for r in orows]
         case["alpha"] = rng.choice([-1.0, 2.0, 0.5, 0.0, 3.0]) if case["api"] == "add_alpha" else 1.0
         case["tags"] = sorted({r[1] for r in rows})[:4]
+        case["grad"] = rng.choice(GRAD_MODES)
+        if case["grad"] in ("X", "both") and case["api"] == "add_":
+            case["grad"] = "no_grad"
         return case
     rows = [gen_grp_row(rng, name, eps) for _ in range(int(math.prod(sa)))]
     case["X"] = [r[0] for r in rows]
@@ -284,6 +289,9 @@ def gen_case(ctx: Ctx, ci: int):
         case["a"] = [r + [rng.uniform(-9, 9) for _ in range(case["extra"])] for r in case["a"]]
         case["alpha"] = rng.choice([-1.0, 2.0, 0.5, 0.0, 3.0]) if case["api"].endswith("alpha") else 1.0
     case["tags"] = sorted(set(tags))[:4]
+    case["grad"] = rng.choice(GRAD_MODES)
+    if case["grad"] in ("X", "both") and case.get("api", "").startswith(("add_", "pp.add_")):
+        case["grad"] = "no_grad"      # in-place on a leaf that requires grad is only legal under no_grad (the optimizer pattern)
     return case
 
 
@@ -292,21 +300,24 @@ def tensors_of(case):
     P = U.pp()
     name, D = case["type"], U.dt(case["dtype"])
     out = {}
+    g = case.get("grad")
+    rgX, rga = g in ("X", "both", "no_grad"), g in ("a", "both", "no_grad")
     if "X" in case:
         sa = tuple(case["shape_X"])
         t = torch.tensor(case["X"], dtype=torch.float64).reshape(sa + (U.GDIM[name],)).to(D)
-        out["X"] = P.LieTensor(t, ltype=U.ltype(name))
+        out["X"] = P.LieTensor(t, ltype=U.ltype(name)).requires_grad_(rgX)
         out["X64"] = t.double()
     if "x" in case:
         sa = tuple(case["shape_X"])
         t = torch.tensor(case["x"], dtype=torch.float64).reshape(sa + (U.ADIM[name],)).to(D)
-        out["x"] = P.LieTensor(t, ltype=getattr(P, U.ALG[name] + "_type"))
+        out["x"] = P.LieTensor(t, ltype=getattr(P, U.ALG[name] + "_type")).requires_grad_(rgX)
         out["x64"] = t.double()
     if "a" in case:
         sb = tuple(case["shape_a"])
         w = U.ADIM[name] + case.get("extra", 0)
         t = torch.tensor(case["a"], dtype=torch.float64).reshape(sb + (w,)).to(D)
-        out["a"] = P.LieTensor(t, ltype=getattr(P, U.ALG[name] + "_type")) if case.get("a_lt") or case.get("api") == "+lt" else t
+        out["a"] = P.LieTensor(t.clone(), ltype=getattr(P, U.ALG[name] + "_type")) if case.get("a_lt") or case.get("api") == "+lt" else t.clone()
+        out["a"].requires_grad_(rga)
         out["a64"] = t.double()
     return out
 
@@ -433,7 +444,19 @@ def call_add(P, api, X, a, alpha):
     return r, Xc
 
 
+GRAD_MODES = [None, None, None, "X", "a", "both", "no_grad", "inference"]
+
+
 def prepare(ctx: Ctx, case) -> list:
+    """run the real code on `case` in the case's grad mode (operands requiring grad / no_grad / inference_mode): the VALUES are
+    compared with the model exactly as for plain tensors"""
+    import contextlib
+    cm = {"no_grad": torch.no_grad, "inference": torch.inference_mode}.get(case.get("grad"), contextlib.nullcontext)
+    with cm():
+        return _prepare(ctx, case)
+
+
+def _prepare(ctx: Ctx, case) -> list:
     """run the real code on `case`; returns the Pending model comparisons. Oracle-type failures are recorded directly."""
     P = U.pp()
     name, dtype, op = case["type"], case["dtype"], case["op"]
@@ -631,13 +654,14 @@ def run_ops(ctx: Ctx, n_cases: int):
         case = gen_case(ctx, ci)
         nontrivial = not all(t in ("identity", "zero") for t in case.get("tags", []))
         ctx.count(f"ops.{case['op']}.{case['type']}.{case['dtype']}")
+        ctx.count(f"ops.grad.{case.get('grad')}")
         ctx.count(f"shape.{tuple(case['shape_X'])}x{tuple(case.get('shape_a', []))}")
         if "api" in case:
             ctx.count(f"api.{case['api']}")
         for t in case.get("tags", []):
             ctx.count("regime." + t.split("/")[0].rstrip("-0123456789"))
         pend += prepare(ctx, case)
-        ctx.note_case(("ops", case["op"], case.get("api"), case["type"], case["dtype"], tuple(case.get("tags", [])),
+        ctx.note_case(("ops", case["op"], case.get("api"), case.get("grad"), case["type"], case["dtype"], tuple(case.get("tags", [])),
                        tuple(case["shape_X"]), tuple(case.get("shape_a", []))), nontrivial)
         ctx.sample({k2: case[k2] for k2 in ("op", "type", "dtype", "shape_X", "shape_a", "tags", "api") if k2 in case}, cap=10)
     flush(ctx, pend)
@@ -688,9 +712,12 @@ def law_case(ctx: Ctx, case) -> bool:
     a = P.LieTensor(torch.tensor(case["a"], dtype=torch.float64).reshape(sb + (A,)).to(D), ltype=algT)
     if X.numel() == 0 or a.numel() == 0:
         return True
+    g = case.get("grad")          # the laws must hold by VALUE for operands inside autograd too
+    X.requires_grad_(g in ("X", "both"))
+    a.requires_grad_(g in ("a", "both"))
     n0 = len(ctx.failures)
-    Xe = X.tensor().double().expand(so + (G,))
-    ae = a.tensor().double().expand(so + (A,))
+    Xe = X.tensor().detach().double().expand(so + (G,))
+    ae = a.tensor().detach().double().expand(so + (A,))
     zero = torch.zeros(so, dtype=torch.float64)
 
     def nrm(t, sl):
@@ -778,7 +805,8 @@ def run_laws(ctx: Ctx, n_cases: int):
         g = U.to_dtype_exact([r[0] for r in gs], dtype)[1].tolist() if na else []
         a = U.to_dtype_exact([r[0] for r in as_], dtype)[1].tolist() if nb else []
         case = {"stream": "laws", "type": name, "dtype": dtype, "shape_X": list(sa), "shape_a": list(sb), "X": g, "a": a,
-                "junk": [rng.uniform(-9, 9), rng.uniform(-9, 9)]}
+                "junk": [rng.uniform(-9, 9), rng.uniform(-9, 9)], "grad": rng.choice([None, None, "X", "a", "both"])}
+        ctx.count(f"laws.grad.{case['grad']}")
         law_case(ctx, case)
         tg = tuple(sorted({r[1] for r in gs}))[:2] + tuple(sorted({r[1] for r in as_}))[:2]
         ctx.note_case(("laws", name, dtype, tg, sa, sb), not all(t in ("identity", "zero") for t in tg))
@@ -1186,7 +1214,8 @@ def run_corpus(ctx: Ctx):
                     single_vs_batched(ctx, case, name, dtype, op, X, aL, Z)
                 except Exception as ex:
                     ctx.fail(case, f"raises: corpus {op} on {name} {dtype} raised {type(ex).__name__}: {str(ex)[:160]}")
-            law_case(ctx, {"stream": "laws", "type": name, "dtype": dtype, "shape_X": [len(Xr), 1], "shape_a": [len(Ar)], "X": Xr, "a": Ar})
+            for gm in (None, "X", "a", "both"):
+                law_case(ctx, {"stream": "laws", "type": name, "dtype": dtype, "shape_X": [len(Xr), 1], "shape_a": [len(Ar)], "X": Xr, "a": Ar, "grad": gm})
             for i, x in enumerate(Xr):   # exact adjoint oracle on a fixed pairing (three tangent rows per group row)
                 for j in ((5 * i) % len(Ar), (5 * i + 4) % len(Ar), (5 * i + 8) % len(Ar)):
                     for op in ("Adj", "AdjT"):
@@ -1454,6 +1483,281 @@ def run_views(ctx: Ctx):
                 ctx.fail(case, f"raises: views stream on {name} {dtype} raised {type(ex).__name__}: {str(ex)[:200]}")
 
 
+# ----------------------------------------------------------------------------- grad modes, argument forms, atomicity, copies, ownership, sizes
+
+def _val(z):
+    z = z.tensor() if hasattr(z, "ltype") else z
+    return z.detach()
+
+
+def _same(z1, z2):
+    return z1.shape == z2.shape and z1.dtype == z2.dtype and torch.equal(torch.nan_to_num(z1, nan=1.2345), torch.nan_to_num(z2, nan=1.2345))
+
+
+def spellings(P, name, algT):
+    """every public spelling of the C05 operations as fn(X, a, aL) (a: plain tensor, aL: the same data as algebra LieTensor)"""
+    sp = {
+        "X.Adj(a)": lambda X, a, aL: X.Adj(a), "X.Adj(aL)": lambda X, a, aL: X.Adj(aL), "pp.Adj(X,aL)": lambda X, a, aL: P.Adj(X, aL),
+        "X.AdjT(a)": lambda X, a, aL: X.AdjT(a), "pp.AdjT(X,aL)": lambda X, a, aL: P.AdjT(X, aL),
+        "X.Jinvp(a)": lambda X, a, aL: X.Jinvp(a), "pp.Jinvp(X,aL)": lambda X, a, aL: P.Jinvp(X, aL),
+        "X.Retr(aL)": lambda X, a, aL: X.Retr(aL), "pp.Retr(X,aL)": lambda X, a, aL: P.Retr(X, aL),
+        "X+a": lambda X, a, aL: X + a, "X+aL": lambda X, a, aL: X + aL, "X.add(a)": lambda X, a, aL: X.add(a), "X.add(aL)": lambda X, a, aL: X.add(aL),
+        "pp.add(X,a)": lambda X, a, aL: P.add(X, a), "X.add(a,alpha=0.5)": lambda X, a, aL: X.add(a, alpha=0.5),
+        "X.add(a,0.5)": lambda X, a, aL: X.add(a, 0.5), "pp.add(X,a,alpha=-2)": lambda X, a, aL: P.add(X, a, alpha=-2),
+        "X.add(other=a,alpha=3)": lambda X, a, aL: X.add(other=a, alpha=3), "Exp(aL)@X": lambda X, a, aL: aL.Exp() @ X,
+        "Exp(aL)*X": lambda X, a, aL: aL.Exp() * X, "aL+a": lambda X, a, aL: aL + a, "aL.add(a,alpha=2)": lambda X, a, aL: aL.add(a, alpha=2),
+    }
+    if name == "SO3":
+        sp["X.Jr()"] = lambda X, a, aL: X.Jr()
+        sp["aL.Jr()"] = lambda X, a, aL: aL.Jr()
+        sp["pp.Jr(aL)"] = lambda X, a, aL: P.Jr(aL)
+    return sp
+
+
+def run_modes(ctx: Ctx):
+    """(10) argument forms, (11) atomic error paths, (12) grad modes, (13) duck-typed operands, (14) copies, (15) results own their
+    memory, (16) special batch sizes, (17) call order across types.  Deterministic; reference = the plain call (itself tied to
+    the model and the oracles by the corpus)."""
+    import copy
+    import pickle
+    P = U.pp()
+    order_log = {}
+    combos = [(n_, d_) for n_ in U.GROUPS for d_ in ("float64", "float32")]
+    fixed = {}
+    for name, dtype in combos:
+        e, D = teps(dtype), U.dt(dtype)
+        G, A = U.GDIM[name], U.ADIM[name]
+        algT = getattr(P, U.ALG[name] + "_type")
+        gr, ar = corner_group_rows(name, dtype), corner_alg_rows(name, dtype)
+        Xd = torch.tensor([gr[i][0] for i in (5, 3, 6)], dtype=torch.float64).to(D)          # ordinary, tiny angle, other hemisphere
+        ad = torch.tensor([ar[i][0] for i in (5, 1, 8)], dtype=torch.float64).to(D)          # ordinary, eps-neighbourhood, angle 7
+        fixed[(name, dtype)] = (Xd, ad)
+        sp = spellings(P, name, algT)
+        case = {"stream": "modes", "type": name, "dtype": dtype}
+
+        def mk(rgX=False, rga=False, param=False, nonleaf=False):
+            X = P.LieTensor(Xd.clone(), ltype=U.ltype(name))
+            a = ad.clone()
+            if param:
+                X = P.Parameter(X)
+                a = torch.nn.Parameter(a) if rga else a
+            else:
+                X.requires_grad_(rgX)
+                a.requires_grad_(rga)
+            if nonleaf:
+                X = X.clone() if X.requires_grad else X
+                a = a * 1.0 if a.requires_grad else a
+            aL = P.LieTensor(a, ltype=algT)
+            return X, a, aL
+        try:
+            base = {}
+            X, a, aL = mk()
+            for k2, f in sp.items():
+                base[k2] = _val(f(X, a, aL))
+            order_log[(name, dtype)] = base
+            # the spellings of + agree with Exp(a)@X by value (plain operands)
+            # (12)/(13) grad modes and operand kinds: values must not depend on them
+            import contextlib
+            variants = [("requires_grad X", dict(rgX=True), contextlib.nullcontext), ("requires_grad a", dict(rga=True), contextlib.nullcontext),
+                        ("requires_grad both", dict(rgX=True, rga=True), contextlib.nullcontext),
+                        ("non-leaf graph operands", dict(rgX=True, rga=True, nonleaf=True), contextlib.nullcontext),
+                        ("pp.Parameter X / nn.Parameter a", dict(param=True, rga=True), contextlib.nullcontext),
+                        ("pp.Parameter X", dict(param=True), contextlib.nullcontext),
+                        ("no_grad, requires_grad both", dict(rgX=True, rga=True), torch.no_grad),
+                        ("no_grad, plain", dict(), torch.no_grad),
+                        ("inference_mode, plain", dict(), torch.inference_mode),
+                        ("inference_mode, requires_grad both", dict(rgX=True, rga=True), torch.inference_mode),
+                        ("enable_grad inside no_grad, requires_grad X", dict(rgX=True), None)]
+            for vlab, kw, cm in variants:
+                X, a, aL = mk(**kw)
+                for k2, f in sp.items():
+                    ctx.note_case(("modes", name, dtype, vlab, k2), True)
+                    ctx.count(f"modes.{vlab}")
+                    try:
+                        if cm is None:
+                            with torch.no_grad():
+                                with torch.enable_grad():
+                                    z = f(X, a, aL)
+                        else:
+                            with cm():
+                                z = f(X, a, aL)
+                    except Exception as ex:
+                        ctx.fail(case | {"mode": vlab, "op": k2}, f"grad-mode: {k2} with operands [{vlab}] raised {type(ex).__name__}: {str(ex)[:120]} ({name}, {dtype})")
+                        continue
+                    if hasattr(base[k2], "shape") and not _same(_val(z), base[k2]):
+                        d = float((_val(z).double() - base[k2].double()).abs().max()) if _val(z).shape == base[k2].shape else float("nan")
+                        ctx.fail(case | {"mode": vlab, "op": k2, "X": Xd.double().tolist(), "a": ad.double().tolist()},
+                                 f"grad-mode: {k2} with operands [{vlab}] returns other VALUES than the plain call (max diff {d:.3e}) ({name}, {dtype})")
+                    if hasattr(z, "ltype") != (k2 not in ("X.Jr()", "aL.Jr()", "pp.Jr(aL)")):
+                        ctx.fail(case | {"mode": vlab, "op": k2}, f"grad-mode: {k2} with operands [{vlab}] returned {type(z).__name__} ({name})")
+            # in-place forms where they are legal: optimizer pattern (Parameter under no_grad), inference_mode, non-leaf clone
+            for vlab, kw, cm in [("Parameter under no_grad", dict(param=True), torch.no_grad), ("requires_grad X under no_grad", dict(rgX=True), torch.no_grad),
+                                 ("plain under inference_mode", dict(), torch.inference_mode), ("non-leaf clone, grad enabled", dict(rgX=True, nonleaf=True), contextlib.nullcontext)]:
+                for api, call, ref in [("add_(a)", lambda X, a: X.add_(a), "X+a"), ("add_(a,alpha=0.5)", lambda X, a: X.add_(a, alpha=0.5), "X.add(a,alpha=0.5)"),
+                                       ("pp.add_(X,a,-2)", lambda X, a: P.add_(X, a, -2), "pp.add(X,a,alpha=-2)")]:
+                    X, a, aL = mk(**kw)
+                    ctx.count("modes.inplace")
+                    try:
+                        with cm():
+                            r = call(X, a.detach())
+                    except Exception as ex:
+                        ctx.fail(case | {"mode": vlab, "op": api}, f"grad-mode: {api} on [{vlab}] raised {type(ex).__name__}: {str(ex)[:120]} ({name}, {dtype})")
+                        continue
+                    if not _same(_val(X), base[ref]) or not _same(_val(r), base[ref]):
+                        ctx.fail(case | {"mode": vlab, "op": api, "X": Xd.double().tolist(), "a": ad.double().tolist()},
+                                 f"grad-mode: {api} on [{vlab}] leaves other VALUES than the plain out-of-place call ({name}, {dtype})")
+            # `X += a` is not among the observed entry points (LieTensor has no __iadd__: it is Tensor's raw element-wise addition);
+            # its behaviour is recorded in the evidence, not judged (set JUDGE_IADD to make it a failure)
+            X, a, aL = mk()
+            try:
+                with torch.no_grad():
+                    Y = X.clone()
+                    Y += torch.cat([a, a[..., :1]], -1) if name != "SO3" else torch.cat([a, a[..., :1]], -1)
+                retracts = _same(_val(Y), base["X+a"])
+            except Exception:
+                retracts = None
+            ctx.count("modes.iadd." + ("retracts" if retracts else ("raises" if retracts is None else "raw-tensor-semantics")))
+            if JUDGE_IADD and not retracts:
+                ctx.fail(case | {"op": "X+=a"}, f"iadd: `X += a` is not Exp(a)@X ({'raises' if retracts is None else 'raw element-wise addition'}) ({name}, {dtype})")
+            # (11) a failing call leaves the object exactly as it was, and the history continues as if it had not happened
+            X, a, aL = mk()
+            bads = [("too few components", lambda: X.add_(a[..., :A - 1])), ("non-broadcastable batch", lambda: X.add_(torch.cat([a, a], 0)[:2 if a.shape[0] != 2 else 3])),
+                    ("operand of a wrong type", lambda: X.add_("tangent")), ("out-of-place, too few components", lambda: X + a[..., :A - 1]),
+                    ("Adj with a short operand", lambda: X.Adj(a[..., :A - 1])), ("Jinvp with a non-broadcastable batch", lambda: X.Jinvp(torch.cat([a, a], 0)[:2])),
+                    ("algebra add_ with too few components", lambda: aL.add_(a[..., :A - 1])), ("Retr with a plain tensor of wrong width", lambda: X.Retr(P.LieTensor(a[..., :A - 1], ltype=algT)))]
+            for blab, bad in bads:
+                x0, a0 = X.tensor().clone(), a.clone()
+                raised = False
+                try:
+                    bad()
+                except Exception:
+                    raised = True
+                ctx.count("modes.error-path" + (".raised" if raised else ".accepted"))
+                if raised and (not torch.equal(X.tensor(), x0) or not torch.equal(a, a0)):
+                    ctx.fail(case | {"bad_call": blab}, f"atomic: a call that raised ({blab}) left its operands modified ({name}, {dtype})")
+                    X, a, aL = mk()
+                elif not raised:
+                    X, a, aL = mk()
+            X.add_(a)
+            if not _same(_val(X), base["X+a"]):
+                ctx.fail(case, f"atomic: after caught failing calls the next add_ does not give Exp(a)@X of the untouched object ({name}, {dtype})")
+            # (14) copies follow their own law
+            X, a, aL = mk()
+            for clab, mkcopy in [("copy.deepcopy", copy.deepcopy), ("pickle round trip", lambda o: pickle.loads(pickle.dumps(o))),
+                                 ("copy.copy", copy.copy), ("deepcopy of pp.Parameter", None)]:
+                try:
+                    Xo = P.Parameter(P.LieTensor(Xd.clone(), ltype=U.ltype(name))) if mkcopy is None else P.LieTensor(Xd.clone(), ltype=U.ltype(name))
+                    Xc = copy.deepcopy(Xo) if mkcopy is None else mkcopy(Xo)
+                except Exception as ex:
+                    ctx.count(f"modes.copy-unsupported.{clab}")
+                    if clab != "pickle round trip":
+                        ctx.fail(case | {"copy": clab}, f"copy: {clab} of a {name} LieTensor raised {type(ex).__name__}: {str(ex)[:100]}")
+                    continue
+                ctx.count("modes.copy")
+                if not hasattr(Xc, "ltype") or type(Xc.ltype) is not type(Xo.ltype) or not _same(_val(Xc), _val(Xo)) or type(Xc) is not type(Xo):
+                    ctx.fail(case | {"copy": clab}, f"copy: {clab} of a {name} LieTensor lost its type / ltype / values")
+                    continue
+                shares = Xc.data_ptr() == Xo.data_ptr()
+                with torch.no_grad():
+                    for k2 in ("X.Adj(a)", "X.Jinvp(a)", "X+a"):
+                        if not _same(_val(sp[k2](Xc, a, aL)), base[k2]):
+                            ctx.fail(case | {"copy": clab, "op": k2}, f"copy: {k2} on a {clab} differs from the original's value ({name}, {dtype})")
+                    Xc.add_(a)                      # update the copy, then the original with another vector, interleaved reads
+                    exp_c = base["X+a"]
+                    exp_o = exp_c if shares else Xd
+                    if not _same(_val(Xc), exp_c) or not _same(_val(Xo), exp_o):
+                        ctx.fail(case | {"copy": clab}, f"copy: add_ on a {clab} " + ("is not seen through the shared storage" if shares else "changed the original / did not update the copy") + f" ({name}, {dtype})")
+                    for k2 in ("X.Adj(a)", "X.Jinvp(a)", "X.AdjT(a)"):
+                        for lab, obj in (("copy", Xc), ("original", Xo)):
+                            w = sp[k2](P.LieTensor(_val(obj).clone(), ltype=U.ltype(name)), a, aL)
+                            if not _same(_val(sp[k2](obj, a, aL)), _val(w)):
+                                ctx.fail(case | {"copy": clab, "op": k2}, f"copy: {k2} on the {lab} after interleaved updates differs from a fresh object with the same value ({name})")
+            # (15) results own their memory
+            X, a, aL = mk()
+            for k2, f in sp.items():
+                z = f(X, a, aL)
+                zt = torch.Tensor.as_subclass(z, torch.Tensor)
+                ctx.count("modes.ownership")
+                if any(st_ == 0 and sz_ > 1 for st_, sz_ in zip(zt.stride(), zt.shape)):
+                    ctx.fail(case | {"op": k2}, f"ownership: the result of {k2} overlaps itself (stride 0): items share memory ({name}, {dtype})")
+                    continue
+                ptrs = {X.tensor().untyped_storage().data_ptr(), a.untyped_storage().data_ptr()}
+                if zt.untyped_storage().data_ptr() in ptrs:
+                    ctx.fail(case | {"op": k2}, f"ownership: the result of {k2} aliases the storage of an operand ({name}, {dtype})")
+                    continue
+                z1 = zt.clone()
+                zt[0] = 7.5
+                if not torch.equal(torch.nan_to_num(zt[1:]), torch.nan_to_num(z1[1:])) or not torch.equal(X.tensor(), Xd) or not torch.equal(a, ad) \
+                        or not _same(_val(f(X, a, aL)), base[k2]):
+                    ctx.fail(case | {"op": k2}, f"ownership: writing into one item of the result of {k2} changed other items, an operand or a later call ({name}, {dtype})")
+            # (16) special batch sizes in every batch position: batched = item by item
+            rng_rows_X = [r[0] for r in gr]
+            rng_rows_a = [r[0] for r in ar]
+            for sa, sb in [((3,), (3,)), ((3, 3), (3, 3)), ((G,), (G,)), ((A,), (A,)), ((5,), (5,)), ((7,), (1,)), ((1,), (7,)), ((3, 1), (1, 3)),
+                           ((1, 3), (3, 1)), ((3,), ()), ((), (3,)), ((G, 3), (3,)), ((3, A), (3, A))]:
+                na, nb = int(math.prod(sa)), int(math.prod(sb))
+                Xs = torch.tensor([rng_rows_X[(2 * i + len(sa)) % len(rng_rows_X)] for i in range(na)], dtype=torch.float64).reshape(sa + (G,)).to(D)
+                As = torch.tensor([rng_rows_a[(3 * i + 1 + len(sb)) % len(rng_rows_a)] for i in range(nb)], dtype=torch.float64).reshape(sb + (A,)).to(D)
+                XL, AL = P.LieTensor(Xs, ltype=U.ltype(name)), P.LieTensor(As, ltype=algT)
+                c2 = case | {"shape_X": list(sa), "shape_a": list(sb), "X": Xs.double().reshape(-1, G).tolist(), "a": As.double().reshape(-1, A).tolist()}
+                for op in ("Adj", "AdjT", "Retr", "add", "Jinvp"):
+                    ctx.note_case(("sizes", name, dtype, sa, sb, op), True)
+                    ctx.count(f"modes.sizes.{sa}x{sb}")
+                    try:
+                        Z = {"Adj": lambda: XL.Adj(AL), "AdjT": lambda: XL.AdjT(AL), "Retr": lambda: XL.Retr(AL), "add": lambda: XL + As, "Jinvp": lambda: XL.Jinvp(AL)}[op]()
+                        so = tuple(torch.broadcast_shapes(sa, sb))
+                        if tuple(Z.shape[:-1]) != so:
+                            ctx.fail(c2 | {"op": op}, f"sizes: {op} on batch shapes {sa},{sb} returned batch shape {tuple(Z.shape[:-1])} ({name})")
+                            continue
+                        single_vs_batched(ctx, c2 | {"op": op}, name, dtype, op, XL, AL, Z)
+                    except Exception as ex:
+                        ctx.fail(c2 | {"op": op}, f"raises: {op} on batch shapes {sa},{sb} raised {type(ex).__name__}: {str(ex)[:120]} ({name}, {dtype})")
+                if name == "SO3" and na:
+                    for obj in (XL, P.LieTensor(As[..., :3] if nb else As, ltype=algT)):
+                        if obj.numel() == 0:
+                            continue
+                        J = obj.Jr()
+                        flat = obj.tensor().reshape(-1, obj.shape[-1])
+                        for i in range(flat.shape[0]):
+                            Ji = P.LieTensor(flat[i].clone(), ltype=obj.ltype).Jr()
+                            if not float((Ji.double() - J.reshape(-1, 3, 3)[i].double()).abs().max()) <= 16 * e * float(Ji.abs().max()):
+                                ctx.fail(c2 | {"op": "Jr", "item": i}, f"sizes: Jr on batch shape {tuple(obj.shape[:-1])} differs at item {i} from the single call ({dtype})")
+                                break
+        except Exception as ex:
+            ctx.fail(case, f"raises: modes stream on {name} {dtype} raised {type(ex).__name__}: {str(ex)[:200]}")
+    # (17) module-level state: the same calls in other orders across types and dtypes give the same values
+    try:
+        for olab, order in (("reversed", list(reversed(combos))), ("op-major interleaved", None)):
+            got = {}
+            if order is not None:
+                for name, dtype in order:
+                    Xd, ad = fixed[(name, dtype)]
+                    algT = getattr(P, U.ALG[name] + "_type")
+                    X, a = P.LieTensor(Xd.clone(), ltype=U.ltype(name)), ad.clone()
+                    aL = P.LieTensor(a, ltype=algT)
+                    for k2, f in reversed(list(spellings(P, name, algT).items())):
+                        got[(name, dtype, k2)] = _val(f(X, a, aL))
+            else:
+                keys = list(spellings(P, "SO3", P.so3_type).keys())
+                for k2 in keys:
+                    for name, dtype in combos:
+                        algT = getattr(P, U.ALG[name] + "_type")
+                        f = spellings(P, name, algT).get(k2)
+                        if f is None:
+                            continue
+                        Xd, ad = fixed[(name, dtype)]
+                        X, a = P.LieTensor(Xd.clone(), ltype=U.ltype(name)), ad.clone()
+                        got[(name, dtype, k2)] = _val(f(X, a, P.LieTensor(a, ltype=algT)))
+            for (name, dtype, k2), z in got.items():
+                ctx.count("modes.order")
+                if not _same(z, order_log[(name, dtype)][k2]):
+                    ctx.fail({"stream": "modes", "type": name, "dtype": dtype, "op": k2, "order": olab},
+                             f"order: {k2} on {name} ({dtype}) returns other values when the calls on the eight (type, dtype) pairs are made in "
+                             f"{olab} order — state shared across types")
+    except Exception as ex:
+        ctx.fail({"stream": "modes"}, f"raises: call-order probe raised {type(ex).__name__}: {str(ex)[:200]}")
+
+
 # ----------------------------------------------------------------------------- entry points
 
 def run(ctx: Ctx):
@@ -1473,6 +1777,7 @@ def run(ctx: Ctx):
     _UL.persistent_probe(ctx, _reads)
     history_probe(ctx)
     run_views(ctx)
+    run_modes(ctx)
     run_corpus(ctx)
     run_ops(ctx, ctx.pick(600, 7000))
     run_laws(ctx, ctx.pick(300, 5000))
@@ -1553,8 +1858,8 @@ def replay(ctx: Ctx, case) -> bool:
         ok = jr_oracle_case(ctx, c)
     elif st == "adj":
         ok = adj_oracle_case(ctx, c)
-    elif st in ("history", "views", "persistent"):   # deterministic streams: re-run the whole (seed independent) stream
-        {"history": history_probe, "views": run_views}.get(st, lambda cx: run(cx))(ctx)
+    elif st in ("history", "views", "persistent", "modes"):   # deterministic streams: re-run the whole (seed independent) stream
+        {"history": history_probe, "views": run_views, "modes": run_modes}.get(st, lambda cx: run(cx))(ctx)
         ok = len(ctx.failures) == n0
     else:
         pend = prepare(ctx, c)
